@@ -47,9 +47,9 @@ def _make_wrapper(cls, name, orig):
     post_name = "post_{}_{}".format(cls.__name__, name)
 
     def wrapper(self, *args, **kwargs):
+        HITS[label] += 1
         if not _ACTIVE:
             return orig(self, *args, **kwargs)
-        HITS[label] += 1
         recs = list(_ACTIVE)
         tokens = []
         for rec in recs:
